@@ -92,9 +92,8 @@ func pruneAryNulls(ary *partialArray, options *ApplyOptions) *partialArray {
 	newAry := []*lazyNode{}
 
 	for _, v := range ary.nodes {
-		if v != nil {
-			pruneNulls(v, options)
-		}
+		// RFC 7396: an array in a patch replaces the target value verbatim;
+		// null members of objects inside it are data, not deletions.
 		newAry = append(newAry, v)
 	}
 
